@@ -313,6 +313,46 @@ func ruleC01R4(r *Run) {
 		vi := verbIndex(f, "draw %v: ")
 		ok := vi >= 0 && vi < len(args) && args[vi] != nil && p.same(args[vi], v)
 		r.Check("(*Generator).Draw#log", cs.Instr.Pos(), ok, "the logged value is the drawn value", "the '[rapid] draw' line logs something other than the value handed to the property")
+		// the draw is logged exactly when a log sink is configured: never skipped while logging is on (the
+		// "Failed test output" would then not show the values of the reported test case)
+		sets := p.pathConds(fn, cs.Instr.Block(), func(rl rel) bool { return rl.X == "$t.tbLog" || rl.X == "$t.rawLog" })
+		okGuard := len(sets) > 0
+		seenTB, seenRaw := false, false
+		for _, set := range sets {
+			hasTB, hasRaw := false, false
+			contradictory := false
+			for _, lit := range set {
+				if lit == "$t.tbLog == false" {
+					for _, l2 := range set {
+						if l2 == "$t.tbLog == true" {
+							contradictory = true
+						}
+					}
+				}
+			}
+			if contradictory {
+				continue
+			}
+			for _, lit := range set {
+				switch lit {
+				case "$t.tbLog == true":
+					hasTB = true
+				case "$t.rawLog != nil":
+					hasRaw = true
+				}
+			}
+			if !hasTB && !hasRaw {
+				okGuard = false // logged with no sink configured
+			}
+			// each sink alone is sufficient
+			if hasTB && !hasRaw {
+				seenTB = true
+			}
+			if hasRaw && !hasTB {
+				seenRaw = true
+			}
+		}
+		r.Check("(*Generator).Draw#log-guard", cs.Instr.Pos(), okGuard && seenTB && seenRaw, "the draw is logged whenever t.tbLog or t.rawLog is set", "the '[rapid] draw' line is not written exactly when a log sink is configured (paths: "+fmt.Sprint(sets)+"): the replayed 'Failed test output' misses the drawn values")
 	}
 	r.Floor("draw log lines", n, 1)
 }
